@@ -460,3 +460,234 @@ Theorem C07_percent_line : forall b rows top cl cc pc cnt row off,
   else MvOk (Z.max 0 (Z.max 0 (blen b - 1) * cnt / 100)) (-1) cl cc pc.
 Proof. exact percent_line. Qed.
 Print Assumptions C07_percent_line.
+
+(* ================================================================================================
+   The model is the C text (appended; coq/TrMot.v, coq/TrMotSpec.v).  The functions of /repo/mot.c that every
+   motion is built from -- lbuf_indents, lbuf_lnnext, lbuf_eol, lbuf_next, lbuf_chr, lbuf_wordlast, lbuf_wordbeg,
+   lbuf_wordend -- and lbuf_get / lbuf_len of lbuf.c are translated by tools/c2clite.py (tools/c2clite.d/85_mot.list)
+   into the deep embedding CLite.v and RUN on a memory that holds the buffer as lbuf.c keeps it: block lb = the
+   struct lbuf (cell 64 = ln, cell 66 = ln_n), block bln = the array lb->ln of pointer cells, whose first ln_n
+   cells point to pairwise distinct blocks lbs, each one line as a NUL-terminated C string (TrMot.lbuf_at; lbuf_rep
+   hides the block numbers).  The out-parameters int *row, int *off point to two one-cell blocks br, bo outside the
+   buffer.  For ALL such memories, all lines, all rows / offsets (any int that cannot overflow in "+ dir"), the
+   translated function returns the status of the model (MotDefs.v, on the character view `map chop lines`) and
+   leaves memory with exactly the two int cells rewritten to the model's new position (TrMot.set_pos); every load and
+   store stays inside its block, no signed overflow, no fuel exhausted.  The word scanners are stated for every
+   model fuel that returns a result (C07_fuel_suffices: mfuel b does) and C fuel above it and above the longest line;
+   C07_tr_w_W / e_E / b_B_first_stop compose them with the characterisations above: the C TEXT lands on the first stop.
+   One hypothesis is about the bytes: TrMot.nl_ok -- uc_code(lbuf_chr(..)) == '\n' in lbuf_wordbeg / lbuf_wordend
+   decodes with the bytes BEHIND a truncated multi-byte character, the model decodes the character cut by uc_next
+   alone; they agree (and uc_code stays inside the line's block) on every line without such a sequence, e.g. every
+   line without UTF-8 lead bytes (C07_tr_nl_ok_nolead); C07_tr_nl_needed shows a line ("a\xC0\n") on which the C text
+   and the model differ. *)
+From Coq Require Import Lia.
+From NV Require CLite CLiteProps GenCFuncs TrLbufBase TrUc TrMot TrMotSpec.
+Section C07_translated.
+Import CLite CLiteProps GenCFuncs TrLbufBase TrUc TrMot TrMotSpec.
+
+(* the character view and the byte view of one line *)
+Theorem C07_tr_chop_bridge : forall s off, nonul s ->
+  uc_slen s = length (chop s) /\
+  match uc_chr s off with
+  | Some q => (q <= length s)%nat /\ hd_chr (skipn q s) = chr_at (chop s) off
+  | None => chr_at (chop s) off = []
+  end.
+Proof. exact (fun s off H => conj (uc_slen_chop s H) (uc_chr_chop s off H)). Qed.
+Print Assumptions C07_tr_chop_bridge.
+
+Theorem C07_tr_lbuf_get : forall m lb bln lbs lines r d fuel, lbuf_at m lb bln lbs lines -> lines_small lines ->
+  callf cprog fuel (S d) F_lbuf_get [VPtr lb 0; VInt r] m = Ok (line_ptr lbs lines r, m) /\
+  getl (map chop lines) r = option_map (fun i => chop (nthl lines i)) (rowidx lines r).
+Proof. exact (fun m lb bln lbs lines r d fuel R H => conj (tr_lbuf_get m lb bln lbs lines r d fuel R H) (getl_rowidx lines r)). Qed.
+Print Assumptions C07_tr_lbuf_get.
+
+Theorem C07_tr_lbuf_len : forall m lb bln lbs lines d fuel, lbuf_at m lb bln lbs lines -> lines_small lines ->
+  callf cprog fuel (S d) F_lbuf_len [VPtr lb 0] m = Ok (VInt (blen (map chop lines)), m).
+Proof. exact tr_lbuf_len. Qed.
+Print Assumptions C07_tr_lbuf_len.
+
+Theorem C07_tr_lbuf_indents : forall m lb bln lbs lines r d fuel, lbuf_at m lb bln lbs lines -> lines_small lines ->
+  (maxlen lines < fuel)%nat ->
+  callf cprog fuel (S (S (S d))) F_lbuf_indents [VPtr lb 0; VInt r] m = Ok (VInt (lbuf_indents (map chop lines) r), m).
+Proof. exact tr_lbuf_indents. Qed.
+Print Assumptions C07_tr_lbuf_indents.
+
+Theorem C07_tr_lbuf_eol : forall m lb bln lbs lines r d fuel, lbuf_at m lb bln lbs lines -> lines_small lines ->
+  (maxlen lines < fuel)%nat ->
+  callf cprog fuel (S (S (S d))) F_lbuf_eol [VPtr lb 0; VInt r] m = Ok (VInt (lbuf_eol (map chop lines) r), m).
+Proof. exact tr_lbuf_eol. Qed.
+Print Assumptions C07_tr_lbuf_eol.
+
+Theorem C07_tr_lbuf_lnnext : forall m lb bln lbs lines br bo r o dir d fuel, lbuf_at m lb bln lbs lines -> lines_small lines ->
+  (maxlen lines < fuel)%nat -> cell_at m br r -> cell_at m bo o -> i32 r -> i32 o -> i32 (o + dir) ->
+  callf cprog fuel (S (S (S d))) F_lbuf_lnnext [VPtr lb 0; VInt dir; VPtr br 0; VPtr bo 0] m
+  = Ok (match lbuf_lnnext (map chop lines) dir r o with
+        | Some o' => (VInt 0, upd m bo [VInt o'])
+        | None => (VInt 1, m)
+        end).
+Proof. exact tr_lbuf_lnnext. Qed.
+Print Assumptions C07_tr_lbuf_lnnext.
+
+Theorem C07_tr_lbuf_next : forall m lb bln lbs lines br bo r o dir d fuel, lbuf_at m lb bln lbs lines -> lines_small lines ->
+  (maxlen lines < fuel)%nat -> cell_at m br r -> cell_at m bo o -> br <> bo ->
+  ~ In br (lb :: bln :: lbs) -> ~ In bo (lb :: bln :: lbs) ->
+  i32 r -> i32 o -> i32 dir -> i32 (o + dir) -> i32 (r + dir) ->
+  callf cprog fuel (S (S (S (S d)))) F_lbuf_next [VPtr lb 0; VInt dir; VPtr br 0; VPtr bo 0] m
+  = let '(s, r', o') := lbuf_next (map chop lines) dir r o in Ok (st_val s, set_pos m br bo r' o').
+Proof. exact tr_lbuf_next. Qed.
+Print Assumptions C07_tr_lbuf_next.
+
+(* lbuf_chr: the pointer returned, and what it points at: a C string in memory whose rest starts with the model's character *)
+Theorem C07_tr_lbuf_chr : forall m lb bln lbs lines r o d fuel, lbuf_at m lb bln lbs lines -> lines_small lines ->
+  (maxlen lines < fuel)%nat -> str_at m G_lit__0 [] ->
+  callf cprog fuel (S (S (S (S d)))) F_lbuf_chr [VPtr lb 0; VInt r; VInt o] m = Ok (chr_ptr lbs lines r o, m) /\
+  exists cb cs q, chr_ptr lbs lines r o = VPtr cb (Z.of_nat q) /\ str_at m cb cs /\ nonul cs /\ (q <= length cs)%nat /\
+                  hd_chr (skipn q cs) = lchr (map chop lines) r o /\
+                  (cs = [] \/ exists i, (i < length lines)%nat /\ cs = nthl lines i).
+Proof.
+  exact (fun m lb bln lbs lines r o d fuel R Hs Hf Hl =>
+           conj (tr_lbuf_chr m lb bln lbs lines r o d fuel R Hs Hf) (chr_ptr_view m lb bln lbs lines r o R Hl)).
+Qed.
+Print Assumptions C07_tr_lbuf_chr.
+
+Theorem C07_tr_lbuf_wordlast : forall m lb bln lbs lines br bo kind dir r o mf res d fuel,
+  mot_mem m lb bln lbs lines br bo -> lines_small lines -> cell_at m br r -> cell_at m bo o -> pos_ok r o -> dir_ok dir ->
+  lbuf_wordlast mf (map chop lines) kind dir r o = Some res -> (mf < fuel)%nat -> (maxlen lines < fuel)%nat ->
+  callf cprog fuel (S (S (S (S (S d))))) F_lbuf_wordlast [VPtr lb 0; VInt (Z.of_N kind); VInt dir; VPtr br 0; VPtr bo 0] m
+  = let '(s, r', o') := res in Ok (st_val1 s, set_pos m br bo r' o').
+Proof. exact tr_lbuf_wordlast. Qed.
+Print Assumptions C07_tr_lbuf_wordlast.
+
+Theorem C07_tr_lbuf_wordbeg : forall m lb bln lbs lines br bo bigz dir r o mf res d fuel,
+  mot_mem m lb bln lbs lines br bo -> lines_small lines -> lines_nl_ok lines ->
+  cell_at m br r -> cell_at m bo o -> pos_ok r o -> dir_ok dir ->
+  lbuf_wordbeg mf (map chop lines) (negb (bigz =? 0)) dir r o = Some res -> (mf < fuel)%nat -> (maxlen lines < fuel)%nat ->
+  callf cprog fuel (S (S (S (S (S (S d)))))) F_lbuf_wordbeg [VPtr lb 0; VInt bigz; VInt dir; VPtr br 0; VPtr bo 0] m
+  = let '(s, r', o') := res in Ok (st_val1 s, set_pos m br bo r' o').
+Proof. exact tr_lbuf_wordbeg. Qed.
+Print Assumptions C07_tr_lbuf_wordbeg.
+
+Theorem C07_tr_lbuf_wordend : forall m lb bln lbs lines br bo bigz dir r o mf res d fuel,
+  mot_mem m lb bln lbs lines br bo -> lines_small lines -> lines_nl_ok lines ->
+  cell_at m br r -> cell_at m bo o -> pos_ok r o -> dir_ok dir ->
+  lbuf_wordend mf (map chop lines) (negb (bigz =? 0)) dir r o = Some res -> (mf < fuel)%nat -> (maxlen lines < fuel)%nat ->
+  callf cprog fuel (S (S (S (S (S (S d)))))) F_lbuf_wordend [VPtr lb 0; VInt bigz; VInt dir; VPtr br 0; VPtr bo 0] m
+  = let '(s, r', o') := res in Ok (st_val1 s, set_pos m br bo r' o').
+Proof. exact tr_lbuf_wordend. Qed.
+Print Assumptions C07_tr_lbuf_wordend.
+
+(* the memory after a scan: the two cells hold the new position, every other block is untouched, the buffer is still there *)
+Theorem C07_tr_set_pos : forall m lb bln lbs lines br bo r o, mot_mem m lb bln lbs lines br bo ->
+  mot_mem (set_pos m br bo r o) lb bln lbs lines br bo /\ cell_at (set_pos m br bo r o) br r /\ cell_at (set_pos m br bo r o) bo o /\
+  (forall k, k <> br -> k <> bo -> nth_error (set_pos m br bo r o) k = nth_error m k).
+Proof.
+  exact (fun m lb bln lbs lines br bo r o MM =>
+    match mot_mem_set_pos m lb bln lbs lines br bo r o MM with
+    | conj A (conj B C) => conj A (conj B (conj C (fun k H1 H2 =>
+        set_pos_other m br bo r o k (mm_lr _ _ _ _ _ _ _ MM) (mm_lo _ _ _ _ _ _ _ MM) H1 H2)))
+    end).
+Qed.
+Print Assumptions C07_tr_set_pos.
+
+(* the characterisations of w W e E b B, about the C text *)
+Theorem C07_tr_w_W_first_stop : forall m lb bln lbs lines br bo bigz r o d fuel,
+  mot_mem m lb bln lbs lines br bo -> lines_small lines -> lines_nl_ok lines -> cell_at m br r -> cell_at m bo o ->
+  buf_wf (map chop lines) -> vpos (map chop lines) r o -> (mfuel (map chop lines) < fuel)%nat -> (maxlen lines < fuel)%nat ->
+  exists s r' o',
+    callf cprog fuel (S (S (S (S (S (S d)))))) F_lbuf_wordbeg [VPtr lb 0; VInt bigz; VInt 1; VPtr br 0; VPtr bo 0] m
+    = Ok (st_val1 s, set_pos m br bo r' o') /\ vpos (map chop lines) r' o' /\
+    fwd_step (w_stop (fchr (map chop lines)) (negb (bigz =? 0))) (nchars (map chop lines))
+             (idx (map chop lines) r o) (idx (map chop lines) r' o') s.
+Proof. exact ctext_w_W_first_stop. Qed.
+Print Assumptions C07_tr_w_W_first_stop.
+
+Theorem C07_tr_e_E_first_stop : forall m lb bln lbs lines br bo bigz r o d fuel,
+  mot_mem m lb bln lbs lines br bo -> lines_small lines -> lines_nl_ok lines -> cell_at m br r -> cell_at m bo o ->
+  buf_wf (map chop lines) -> vpos (map chop lines) r o -> (mfuel (map chop lines) < fuel)%nat -> (maxlen lines < fuel)%nat ->
+  exists s r' o',
+    callf cprog fuel (S (S (S (S (S (S d)))))) F_lbuf_wordend [VPtr lb 0; VInt bigz; VInt 1; VPtr br 0; VPtr bo 0] m
+    = Ok (st_val1 s, set_pos m br bo r' o') /\ vpos (map chop lines) r' o' /\
+    fwd_step (e_stop (fchr (map chop lines)) (nchars (map chop lines)) (negb (bigz =? 0))) (nchars (map chop lines))
+             (idx (map chop lines) r o) (idx (map chop lines) r' o') s.
+Proof. exact ctext_e_E_first_stop. Qed.
+Print Assumptions C07_tr_e_E_first_stop.
+
+Theorem C07_tr_b_B_first_stop : forall m lb bln lbs lines br bo bigz r o d fuel,
+  mot_mem m lb bln lbs lines br bo -> lines_small lines -> lines_nl_ok lines -> cell_at m br r -> cell_at m bo o ->
+  buf_wf (map chop lines) -> vpos (map chop lines) r o -> (mfuel (map chop lines) < fuel)%nat -> (maxlen lines < fuel)%nat ->
+  exists s r' o',
+    callf cprog fuel (S (S (S (S (S (S d)))))) F_lbuf_wordend [VPtr lb 0; VInt bigz; VInt (-1); VPtr br 0; VPtr bo 0] m
+    = Ok (st_val1 s, set_pos m br bo r' o') /\ vpos (map chop lines) r' o' /\
+    bwd_step (b_stop (fchr (map chop lines)) (negb (bigz =? 0))) (idx (map chop lines) r o) (idx (map chop lines) r' o') s.
+Proof. exact ctext_b_B_first_stop. Qed.
+Print Assumptions C07_tr_b_B_first_stop.
+
+Theorem C07_tr_nl_ok_nolead : forall s, no_lead s -> nl_ok s.
+Proof. exact nl_ok_nolead. Qed.
+Print Assumptions C07_tr_nl_ok_nolead.
+
+(* not vacuous, and the translated functions RUN: the two lines "ab cd\n" and " ef\n" behind the program's globals
+   (struct lbuf in block G, the line array in G+1, the lines in G+2 and G+3, *row in G+4, *off in G+5).  The memory
+   satisfies every hypothesis of C07_tr_lbuf_wordbeg; the translated lbuf_wordbeg, run by the interpreter, moves
+   (0,0) -> (0,3) -> (1,1) and reports failure at the last word, landing on the last character (1,3), as the model does;
+   lbuf_wordend backwards from (1,1) lands on (0,3); lbuf_indents of line 1 is 1, lbuf_eol of line 0 is 5. *)
+Definition ex_G : nat := Eval vm_compute in length cglobals.
+Definition ex_lines : list bytes := [[97; 98; 32; 99; 100; 10]; [32; 101; 102; 10]]%N.
+Definition ex_struct : block := repeat (VInt 0) 64 ++ [VPtr (ex_G + 1) 0; VInt 0; VInt 2; VInt 4] ++ repeat (VInt 0) 7.
+Definition ex_mem (r o : Z) : mem :=
+  cglobals ++ [ex_struct; [VPtr (ex_G + 2) 0; VPtr (ex_G + 3) 0; VInt 0; VInt 0];
+               cstr_block (zb (nthl ex_lines 0)); cstr_block (zb (nthl ex_lines 1)); [VInt r]; [VInt o]].
+Definition ex_call (f : nat) (args : list val) (r o : Z) : res (val * mem) :=
+  callf cprog 100 10 f ([VPtr ex_G 0] ++ args ++ [VPtr (ex_G + 4) 0; VPtr (ex_G + 5) 0]) (ex_mem r o).
+
+Example C07_tr_nonvacuous :
+  (forall r o, mot_mem (ex_mem r o) ex_G (ex_G + 1) [ex_G + 2; ex_G + 3]%nat ex_lines (ex_G + 4) (ex_G + 5) /\
+               cell_at (ex_mem r o) (ex_G + 4) r /\ cell_at (ex_mem r o) (ex_G + 5) o) /\
+  lines_small ex_lines /\ lines_nl_ok ex_lines /\ (maxlen ex_lines < 100)%nat /\
+  lbuf_wordbeg 20 (map chop ex_lines) false 1 0 0 = Some (false, 0, 3) /\
+  ex_call F_lbuf_wordbeg [VInt 0; VInt 1] 0 0 = Ok (VInt 0, ex_mem 0 3) /\
+  ex_call F_lbuf_wordbeg [VInt 0; VInt 1] 0 3 = Ok (VInt 0, ex_mem 1 1) /\
+  ex_call F_lbuf_wordbeg [VInt 0; VInt 1] 1 1 = Ok (VInt 1, ex_mem 1 3) /\
+  lbuf_wordbeg 20 (map chop ex_lines) false 1 1 1 = Some (true, 1, 3) /\
+  ex_call F_lbuf_wordend [VInt 0; VInt (-1)] 1 1 = Ok (VInt 0, ex_mem 0 3) /\
+  ex_call F_lbuf_wordend [VInt 1; VInt 1] 0 0 = Ok (VInt 0, ex_mem 0 1) /\
+  callf cprog 100 10 F_lbuf_indents [VPtr ex_G 0; VInt 1] (ex_mem 0 0) = Ok (VInt 1, ex_mem 0 0) /\
+  callf cprog 100 10 F_lbuf_eol [VPtr ex_G 0; VInt 0] (ex_mem 0 0) = Ok (VInt 5, ex_mem 0 0) /\
+  ex_call F_lbuf_next [VInt 1] 0 5 = Ok (VInt 0, ex_mem 1 0) /\
+  ex_call F_lbuf_next [VInt 1] 1 3 = Ok (VInt (-1), ex_mem 1 3).
+Proof.
+  split.
+  { intros r o. split; [|split; reflexivity]. constructor; [ |reflexivity|apply Nat.eqb_neq; vm_compute; reflexivity| | |apply Nat.ltb_lt; vm_compute; reflexivity|apply Nat.ltb_lt; vm_compute; reflexivity].
+    - constructor.
+      + exists ex_struct. repeat split; reflexivity.
+      + exists [VPtr (ex_G + 2) 0; VPtr (ex_G + 3) 0; VInt 0; VInt 0]. split; [reflexivity|]. split; [cbn; lia|].
+        intros [|[|i]] Hi; try reflexivity. cbn in Hi. lia.
+      + reflexivity.
+      + intros [|[|i]] Hi; try reflexivity. cbn in Hi. lia.
+      + repeat (apply NoDup_cons; [cbn [In]; intros H; repeat (destruct H as [H|H]; [lia|]); exact H|]). apply NoDup_nil.
+      + repeat (apply Forall_cons; [repeat (apply Forall_cons; [cbv; split; reflexivity|]); apply Forall_nil|]). apply Forall_nil.
+    - cbn [In]; intros H; repeat (destruct H as [H|H]; [unfold ex_G, G_lit__0 in H; lia|]); exact H.
+    - cbn [In]; intros H; repeat (destruct H as [H|H]; [unfold ex_G, G_lit__0 in H; lia|]); exact H. }
+  split; [split; [cbn; lia|repeat constructor; cbn; lia]|].
+  split; [unfold lines_nl_ok; repeat (apply Forall_cons; [apply nl_ok_nolead; repeat (apply Forall_cons; [reflexivity|]); apply Forall_nil|]); apply Forall_nil|].
+  split; [cbn; lia|].
+  repeat match goal with |- _ /\ _ => split end; vm_compute; reflexivity.
+Qed.
+
+(* nl_ok is needed: on the line "a\xC0\n" (a truncated two-byte character before the line end) followed by "b\n",
+   uc_code at the \xC0 decodes C0 0A to 10, so the C text of lbuf_wordbeg counts a line break there and stops on the
+   terminator of line 0, while the model (which decodes the character cut by uc_next, C0 alone) moves on to "b" *)
+Example C07_tr_nl_needed :
+  let lines := [[97; 192; 10]; [98; 10]]%N in
+  let m0 := cglobals ++ [ex_struct; [VPtr (ex_G + 2) 0; VPtr (ex_G + 3) 0; VInt 0; VInt 0];
+                         cstr_block (zb (nthl lines 0)); cstr_block (zb (nthl lines 1)); [VInt 0]; [VInt 0]] in
+  ~ nl_ok (nthl lines 0) /\
+  lbuf_wordbeg 20 (map chop lines) false 1 0 0 = Some (false, 1, 0) /\
+  callf cprog 100 10 F_lbuf_wordbeg [VPtr ex_G 0; VInt 0; VInt 1; VPtr (ex_G + 4) 0; VPtr (ex_G + 5) 0] m0
+  = Ok (VInt 0, set_pos m0 (ex_G + 4) (ex_G + 5) 0 2).
+Proof.
+  cbv zeta. split.
+  { intro H. destruct (H 1%nat ltac:(cbn; lia)) as [_ E]. vm_compute in E. discriminate. }
+  vm_compute. split; reflexivity.
+Qed.
+End C07_translated.
